@@ -148,7 +148,7 @@ class RefClient:
         self.resp_r = resp_r
         self.pid = pid
 
-    def ask(self, payload, timeout=20.0):
+    def ask(self, payload, timeout=150.0):
         self.counter += 1
         self.requests += 1
         rid = f"{os.getpid()}-{self.counter}"
@@ -194,9 +194,12 @@ def _ref_server_loop(req_r, resp_w):
             res = memo.get(key)
             if res is None:
                 res = _render_in_grandchild(rec["payload"])
-                if len(memo) > 20000:
-                    memo.clear()
-                memo[key] = res
+                if str(res.get("error", "")).startswith("harness"):
+                    res = _render_in_grandchild(rec["payload"])      # loaded machine: once more
+                else:
+                    if len(memo) > 20000:
+                        memo.clear()
+                    memo[key] = res
             out = json.dumps({"id": rec["id"], "result": res}).encode() + b"\n"
             off = 0
             while off < len(out):
@@ -227,7 +230,7 @@ def _render_in_grandchild(payload):
     os.close(w)
     chunks = []
     while True:
-        rr, _, _ = select.select([r], [], [], 15.0)
+        rr, _, _ = select.select([r], [], [], 60.0)
         if not rr:
             try:
                 os.kill(pid, signal.SIGKILL)
